@@ -73,6 +73,21 @@ CHECKS.update({
             "File-set equality is compared only at quiescent points (after Open settled), as tables under construction legitimately exist in between.", "3/C14"),
 })
 
+CHECKS.update({
+    "C27": ("exploration", "deterministic simulation of WriteBatch splits through the scheduled commit pipeline",
+            "WriteBatch ops with repeated keys and sizes that force internal splits run concurrently with ordinary transactions; after Flush()==nil every key of the batch must have been committed and the newest committed entry per key must be the last op issued; later reads go through the snapshot oracle.",
+            "Normal mode (NewWriteBatch); managed constructors are exercised by the C36 scenario. A Flush that returns ErrTxnTooBig makes no claim (observed; it is C28's subject).", "3/C27"),
+    "C30": ("exploration", "deterministic simulation of concurrent Sequence lessees",
+            "Several Sequence objects on shared keys with Next/Release/re-lease interleaved step by step: every number returned for a key is new and increasing per object. Found and fixed one defect (see known_findings.jsonl).",
+            "DetectConflicts is on (lessees are arbitrated by transaction conflicts). Restarts/crashes in between are not yet part of this scenario.", "3/C30"),
+    "C31": ("exploration", "deterministic simulation with the merge operator's own compaction, flushes and LSM compactions as scheduled actors",
+            "Add/Get on shared merge keys with an associative, non-commutative merge function while the operator's ticker-driven compaction, flushes and real compactions run: Get equals the concatenation in commit order of a prefix of the Adds containing every completed Add; ErrKeyNotFound only before the first Add.",
+            "Whole-database dumps are skipped in this scenario (merge write-backs reuse the version of a merge entry).", "3/C31"),
+    "C32": ("exploration", "deterministic simulation with publisher and subscriber goroutines scheduled",
+            "Subscribers with prefix and ignore-byte patterns while clients commit: every matching write of commits allocated after registration and acknowledged before unsubscribe is received exactly once, in commit order, with the committed content, and nothing for keys matching no pattern. Found and fixed one defect (see known_findings.jsonl).",
+            "Cancellation is issued only while the subscriber is idle in its select (a cancel racing a pending batch is a runtime select choice that cannot be replayed).", "3/C32"),
+})
+
 PENDING = {}  # property -> reason while not yet implemented
 
 def main():
